@@ -594,6 +594,7 @@ func c16MaxRowDefect(m *c16Model, f string, fcols map[uint64]struct{}) (uint64, 
 
 const (
 	c16KMaxRowHang  = "MaxRow with a filter that no row of a fragment starting at row 0 intersects never returns: fragment.maxRow counts a uint64 down past 0 (i >= minRowID is always true) and caches every row on the way"
+	c16KGBLoop      = "GroupBy over three or more Rows never returns when the last row of an outer field intersects no row of the next field: groupByIterator.nextAtIdx keeps looping after the outer iterator is exhausted (gbi.done is not checked after the recursive call)"
 	c16KMaxRow      = "MaxRow answers from fragment.maxRowID (raised only by Set, never lowered by Clear/ClearRow, not raised by Import)"
 	c16KMinRowFilt  = "MinRow with filter scans only up to fragment.maxRowID (raised only by Set): rows written by Import are not seen"
 	c16KGBOffset    = "GroupBy limit+offset: limit is applied while reducing and offset afterwards (pages after the first come back short)"
@@ -610,8 +611,10 @@ type c16Call struct {
 	// guard != "": the call is a MaxRow with a filter on field `guard`; it is executed on its own under
 	// c16Guarded because a defect of fragment.maxRow can keep it from ever returning.
 	guard string
-	// skip: not executed at all (the confirmed MaxRow defect is predicted to strike)
+	// skip: not executed at all (a confirmed non-terminating defect is predicted to strike)
 	skip bool
+	// work: a GroupBy with three or more children, executed on its own under c16GuardedWork
+	work bool
 }
 
 // c16Guarded runs one query whose executor goroutine may never return. The verdict is state based,
@@ -666,6 +669,105 @@ func c16Abandon(e *c16Env) {
 			break
 		}
 	}
+}
+
+// c16GuardedWork runs one query whose executor goroutine may spin for ever WITHOUT leaving a trace in
+// fragment state (groupByIterator). The verdict is a work bound, not a time bound: the query is
+// declared runaway once the process has performed c16WorkBound heap allocations since it started (a
+// GroupBy over the tiny datasets of this check needs a few thousand). The runaway goroutine takes a
+// fragment lock on every step, so holding every fragment lock of the index parks it for good.
+const c16WorkBound = 30 * 1000 * 1000
+
+func c16GuardedWork(e *c16Env, index, q string) (res interface{}, runaway bool) {
+	type out struct {
+		r   []interface{}
+		err error
+	}
+	var ms runtime.MemStats
+	runtime.ReadMemStats(&ms)
+	start := ms.Mallocs
+	done := make(chan out, 1)
+	go func() {
+		r, err := e.query(index, q)
+		done <- out{r, err}
+	}()
+	for spin := 0; ; spin++ {
+		select {
+		case o := <-done:
+			if o.err != nil || len(o.r) != 1 {
+				return fmt.Errorf("ERR %v", o.err), false
+			}
+			return o.r[0], false
+		default:
+		}
+		if spin < 20 {
+			runtime.Gosched()
+			continue
+		}
+		time.Sleep(500 * time.Microsecond)
+		if spin%8 == 0 {
+			runtime.ReadMemStats(&ms)
+			if ms.Mallocs-start > c16WorkBound {
+				for _, f := range []string{"a", "b"} {
+					for sh := uint64(0); sh < 3; sh++ {
+						if fr := e.srv.holder.fragment(index, f, viewStandard, sh); fr != nil {
+							fr.mu.Lock() // never released: parks the spinning iterator
+						}
+					}
+				}
+				return nil, true
+			}
+		}
+	}
+}
+
+// c16ConfirmGroupByLoop runs the minimal case of the groupByIterator defect once (parent only).
+func c16ConfirmGroupByLoop(c *vx.Check) bool {
+	e := c16GetEnv()
+	index := e.newIndex(false)
+	if _, err := e.query(index, fmt.Sprintf("Set(0, a=0)\nSet(1, b=1)")); err != nil {
+		panic(fmt.Sprintf("c16: confirm case: %v", err))
+	}
+	q := "GroupBy(Rows(a), Rows(b), Rows(a))"
+	res, runaway := c16GuardedWork(e, index, q)
+	c.AddEval(1)
+	if runaway {
+		c16Abandon(e)
+		c.Violate(c16KGBLoop, "Set(0, a=0) Set(1, b=1); query="+q, fmt.Sprintf("no result after %d heap allocations (the answer is the empty list)", c16WorkBound), "[]")
+		return true
+	}
+	if _, got := c16GotGroups(res); got != "[]" {
+		c.Violate("GroupBy wrong fields=a,b,a args=plain", "Set(0, a=0) Set(1, b=1); query="+q, got, "[]")
+	}
+	e.dropIndex(index)
+	c16PutEnv(e)
+	return false
+}
+
+// c16GBMayLoop: conservative prediction of the confirmed groupByIterator defect for a call with three
+// or more children: some shard in which an outer row (within the filter) meets no row of the next field.
+func c16GBMayLoop(m *c16Model, g c16GB) bool {
+	if len(g.kids) < 3 {
+		return false
+	}
+	// levels lvl whose successor lvl+1 is a middle level (not the last child)
+	for lvl := 0; lvl+1 <= len(g.kids)-2; lvl++ {
+		outer, next := g.kids[lvl].f, g.kids[lvl+1].f
+		for _, cs := range m.bits[outer] {
+			for c := range cs {
+				meets := false
+				for _, ns := range m.bits[next] {
+					if _, ok := ns[c]; ok {
+						meets = true
+					}
+				}
+				if !meets {
+					return true // a column of an outer row without any bit of the next field
+				}
+			}
+		}
+	}
+	return false
 }
 
 // c16ConfirmMaxRowWrap runs the minimal case of the MaxRow defect once (in the parent process only).
@@ -736,6 +838,21 @@ func c16RunCalls(c *vx.Check, e *c16Env, index, ds string, calls []c16Call) (ok 
 	var plain []c16Call
 	for _, cl := range calls {
 		if cl.skip {
+			continue
+		}
+		if cl.work {
+			res, runaway := c16GuardedWork(e, index, cl.pql)
+			c.AddEval(1)
+			if runaway {
+				c16Abandon(e)
+				c.Violate(c16KGBLoop, ds+" query="+cl.pql, fmt.Sprintf("no result after %d heap allocations", c16WorkBound), "a result")
+				return false
+			}
+			got, want, key := cl.judge(res)
+			c.Outcome(got)
+			if got != want {
+				c.Violate(key, ds+" query="+cl.pql, got, want)
+			}
 			continue
 		}
 		if cl.guard != "" {
@@ -983,7 +1100,7 @@ func c16GBJudge(m *c16Model, g c16GB) func(v interface{}) (string, string, strin
 	}
 }
 
-func c16GroupByCalls(m *c16Model, c *vx.Check) []c16Call {
+func c16GroupByCalls(m *c16Model, c *vx.Check, loopKnown bool) []c16Call {
 	var calls []c16Call
 	kidSets := [][]string{{"a"}, {"a", "b"}, {"b", "a"}}
 	if c.Thorough() {
@@ -1010,7 +1127,7 @@ func c16GroupByCalls(m *c16Model, c *vx.Check) []c16Call {
 					if o >= 0 {
 						g.hasOffset, g.offset = true, o
 					}
-					calls = append(calls, c16Call{pql: g.pql(), judge: c16GBJudge(m, g)})
+					calls = append(calls, c16Call{pql: g.pql(), judge: c16GBJudge(m, g), work: len(g.kids) >= 3, skip: loopKnown && c16GBMayLoop(m, g)})
 				}
 			}
 		}
@@ -1030,7 +1147,7 @@ func c16GroupByCalls(m *c16Model, c *vx.Check) []c16Call {
 					if l >= 0 {
 						g.hasLimit, g.limit = true, l
 					}
-					calls = append(calls, c16Call{pql: g.pql(), judge: c16GBJudge(m, g)})
+					calls = append(calls, c16Call{pql: g.pql(), judge: c16GBJudge(m, g), work: len(g.kids) >= 3, skip: loopKnown && c16GBMayLoop(m, g)})
 				}
 			}
 		}
@@ -1039,7 +1156,7 @@ func c16GroupByCalls(m *c16Model, c *vx.Check) []c16Call {
 }
 
 // c16Paging runs the paging loops to exhaustion.
-func c16Paging(c *vx.Check, e *c16Env, index, ds string, m *c16Model) {
+func c16Paging(c *vx.Check, e *c16Env, index, ds string, m *c16Model, loopKnown bool) (alive bool) {
 	Ls := []int{1, 2}
 	if c.Thorough() {
 		Ls = []int{1, 2, 3}
@@ -1085,6 +1202,9 @@ func c16Paging(c *vx.Check, e *c16Env, index, ds string, m *c16Model) {
 				base.kids = append(base.kids, c16RowsArgs{f: f})
 			}
 			full := base.all(m)
+			if loopKnown && c16GBMayLoop(m, base) {
+				continue
+			}
 			for _, L := range Ls {
 				for _, how := range []string{"previous", "offset"} {
 					var cat []c16Group
@@ -1093,7 +1213,23 @@ func c16Paging(c *vx.Check, e *c16Env, index, ds string, m *c16Model) {
 					g.hasLimit, g.limit = true, L
 					off := 0
 					for pages := 0; pages < 40; pages++ {
-						r, err := e.query(index, g.pql())
+						var r []interface{}
+						var err error
+						if len(g.kids) >= 3 {
+							res, runaway := c16GuardedWork(e, index, g.pql())
+							if runaway {
+								c16Abandon(e)
+								c.Violate(c16KGBLoop, ds+" query="+g.pql(), fmt.Sprintf("no result after %d heap allocations", c16WorkBound), "a page")
+								return false
+							}
+							if er, isErr := res.(error); isErr {
+								err = er
+							} else {
+								r = []interface{}{res}
+							}
+						} else {
+							r, err = e.query(index, g.pql())
+						}
 						c.AddEval(1)
 						if err != nil || len(r) != 1 {
 							c.Violate("GroupBy paging: query failed", ds+" query="+g.pql(), fmt.Sprint(err), "ok")
@@ -1143,9 +1279,10 @@ func c16Paging(c *vx.Check, e *c16Env, index, ds string, m *c16Model) {
 			}
 		}
 	}
+	return true
 }
 
-func c16Part1(c *vx.Check, nbits int, wrapKnown bool) {
+func c16Part1(c *vx.Check, nbits int, wrapKnown, loopKnown bool) {
 	type job struct {
 		mask   int
 		ghost  int
@@ -1163,15 +1300,19 @@ func c16Part1(c *vx.Check, nbits int, wrapKnown bool) {
 		}
 	}
 	c.Bound("part1_datasets", len(jobs))
-	in := []byte{0}
+	in := []byte{0, 0}
 	if wrapKnown {
 		in[0] = 1
+	}
+	if loopKnown {
+		in[1] = 1
 	}
 	c.ProcFor(c.NextRunLabel(), len(jobs), in, func(in []byte, i int, _ func([]byte)) {
 		if c.Expired() {
 			return
 		}
 		wrapKnown := len(in) > 0 && in[0] == 1
+		loopKnown := len(in) > 1 && in[1] == 1
 		j := jobs[i]
 		e := c16GetEnv()
 		index := e.newIndex(false)
@@ -1220,11 +1361,13 @@ func c16Part1(c *vx.Check, nbits int, wrapKnown bool) {
 		ds := fmt.Sprintf("write=%s bits=%v ghosts(a3@%d,b2@1)=%s", map[bool]string{true: "Set", false: "Import"}[j.viaSet], desc, c16SW+1, mode)
 		calls := c16RowsCalls(m, c, removed)
 		calls = append(calls, c16MinMaxCalls(m, wrapKnown)...)
-		calls = append(calls, c16GroupByCalls(m, c)...)
+		calls = append(calls, c16GroupByCalls(m, c, loopKnown)...)
 		if alive = c16RunCalls(c, e, index, ds, calls); !alive {
 			return
 		}
-		c16Paging(c, e, index, ds, m)
+		if alive = c16Paging(c, e, index, ds, m, loopKnown); !alive {
+			return
+		}
 		if j.mask != 0 || j.ghost != 0 {
 			c.Distinct(ds)
 		}
@@ -1518,11 +1661,12 @@ func TestVerif_C16(t *testing.T) {
 	defer c16CloseAll()
 	nb := c.Pick(6, 8)
 	c.Bound("candidate_bits", nb)
-	wrapKnown := false
+	wrapKnown, loopKnown := false, false
 	if !vx.IsChild() {
 		wrapKnown = c16ConfirmMaxRowWrap(c)
+		loopKnown = c16ConfirmGroupByLoop(c)
 	}
-	c16Part1(c, nb, wrapKnown)
+	c16Part1(c, nb, wrapKnown, loopKnown)
 	c16Part2(c)
 	c16Part3(c)
 	c.Assume("single node, executor worker pool of 1; rows 0..3(4), three shards; GroupBy `previous` only as the cursor taken from the last group of a page (as documented)")
